@@ -64,6 +64,32 @@ def scan() -> list[tuple[str, str, str]]:
     return sites
 
 
+def pool_method() -> str:
+    """which Pool method hands the pairs to the workers in run_connection_attempts, and on which
+    source array `permutational_alignment` builds the cost matrix of the second structure"""
+    tree = ast.parse((SRC / "sampling" / "exploration.py").read_text())
+    found = []
+    for n in ast.walk(tree):
+        if isinstance(n, ast.Call) and isinstance(n.func, ast.Attribute) and isinstance(n.func.value, ast.Name) \
+                and n.func.value.id == "pool" and n.args and "connection_attempt" in ast.unparse(n.args[0]):
+            found.append(n.func.attr)
+    return found[0] if len(found) == 1 else "unavailable"
+
+
+def cost_matrix_source() -> str:
+    tree = ast.parse((SRC / "similarity" / "molecular_similarity.py").read_text())
+    for fn in ast.walk(tree):
+        if isinstance(fn, ast.FunctionDef) and fn.name == "permutational_alignment":
+            for n in ast.walk(fn):
+                if isinstance(n, ast.Assign) and ast.unparse(n.targets[0]) == "coords2_element":
+                    src = ast.unparse(n.value)
+                    if "permuted" in src:
+                        return "working-copy"
+                    if "coords2" in src:
+                        return "pristine"
+    return "unavailable"
+
+
 def _q(s: str) -> str:
     return '"' + s.replace("\\", "\\\\").replace('"', '\\"') + '"'
 
@@ -86,6 +112,17 @@ def regenerate() -> dict:
     lines.append("def justified : List Site := [")
     lines.append(",\n".join(f"  ({_q(a)}, {_q(b)}, {_q(c)})  -- {r}" if i == len(JUSTIFIED) - 1 else
                             f"  ({_q(a)}, {_q(b)}, {_q(c)}),  -- {r}" for i, (a, b, c, r) in enumerate(JUSTIFIED)))
-    lines.append("]\nend TopSearch.Gen.HashSites")
+    pm, cs = pool_method(), cost_matrix_source()
+    status["HashSites.poolMethod"] = pm
+    status["HashSites.costMatrixSource"] = cs
+    lines.append("]\n")
+    lines.append("/-- the Pool method that hands the pairs to the workers (`map` blocks until every task has been")
+    lines.append("    dispatched and returns results by index; anything lazier lets the parent merge while later tasks")
+    lines.append("    are still being pickled) -/")
+    lines.append(f"def poolMethod : String := {_q('map' if pm == 'unavailable' else pm)}")
+    lines.append("/-- `permutational_alignment` reads the second structure's atoms from the untouched input")
+    lines.append("    (`pristine`), not from the working copy it is overwriting group by group -/")
+    lines.append(f"def costMatrixSource : String := {_q('pristine' if cs == 'unavailable' else cs)}")
+    lines.append("end TopSearch.Gen.HashSites")
     status["Gen/HashSites.lean rewritten"] = write_if_changed("HashSites.lean", "\n".join(lines) + "\n")
     return status
